@@ -14,6 +14,7 @@ The dispatch on the value type goes through the generated table `Gen.ValueTypes.
 import AgVerif.Model.Leb
 import AgVerif.Model.EncodedValueKinds
 import AgVerif.Gen.ValueTypes
+import AgVerif.Model.JavaString
 namespace AgVerif.EncodedValue
 open AgVerif.Leb AgVerif.Gen.ValueTypes
 
@@ -217,8 +218,9 @@ def printInit (proto : String) : Value → Option (List Char)
   | .double b => floatSpecial proto (pyIsNaN64 b) (b == 0x7ff0000000000000) (b == 0xfff0000000000000)
   | _ => none
 
-/-! ### the String branch of the field initialiser printing (DvClass.get_source)
-`'"%s"' % str(value).encode("unicode-escape").decode("ascii")`, `'""'` for the empty string.
+/-! ### the String branch of the field initialiser printing (DvClass.get_source / get_source_ext)
+now `string(str(value))`; before the fix `'"%s"' % str(value).encode("unicode-escape").decode("ascii")`
+(`'""'` for the empty string), whose codec is modelled by `pyEscapeChar`.
 A Python `str` is a list of code points (surrogate code points included). -/
 
 def hexNibble (n : Nat) : Nat := if n < 10 then 0x30 + n else 0x57 + n
@@ -238,7 +240,13 @@ def pyEscapeChar (c : Nat) : List Nat :=
      hexNibble (c / 65536 % 16), hexNibble (c / 4096 % 16), hexNibble (c / 256 % 16), hexNibble (c / 16 % 16),
      hexNibble (c % 16)]                                                              -- \UNNNNNNNN
 
-/-- the text printed after `String name = ` for a (non-null) string value -/
-def printStringInit (s : List Nat) : List Nat := [0x22] ++ s.flatMap pyEscapeChar ++ [0x22]
+/-- the text the printer produced BEFORE fixes/C04-string-initialiser-literal.diff (kept to state the
+    defect): Python's unicode-escape between bare quotes -/
+def printStringInitOld (s : List Nat) : List Nat := [0x22] ++ s.flatMap pyEscapeChar ++ [0x22]
+
+/-- the text printed after `String name = ` for a (non-null) string value:
+    `string(str(value))`, the decompiler's Java string-literal writer (androguard/decompiler/writer.py,
+    modelled in AgVerif.Model.JavaString from the generated constants of Gen/JString.lean) -/
+def printStringInit (s : List Nat) : List Nat := AgVerif.JavaString.escape s
 
 end AgVerif.EncodedValue
